@@ -18,7 +18,7 @@ class Tag(Parseable[bytes]):
     """
 
     _pattern = re.compile(br'[\x21\x23\x24\x26\x27\x2C-\x5B'
-                          br'\x5D\x5E-\x7A\x7C\x7E]+')
+                          br'\x5D\x5E-\x7A\x7C-\x7E]+')
 
     def __init__(self, tag: bytes) -> None:
         super().__init__()
